@@ -106,6 +106,21 @@ Proof.
   exists P_d, [Recv false], sched_d. vm_compute. repeat split. eexists. repeat split.
 Qed.
 
+(* asyncio granularity: the same, when the application task has been woken by a successful
+   reconnection but has not run yet while an event, the loss and the final disconnect are
+   processed back to back *)
+Definition P_da : list (list hop) :=
+  [[HDisconnect; NsSet false; NsSet true; HConnect; e_a; HDisconnect; HFinal; NsSet false]].
+Definition sched_da : list nat := [2; 2; 0; 2; 2; 2; 2; 2; 0].
+Theorem disconnected_while_buffered_async_refuted :
+  exists P C sched, forallb lifecycle P = true /\
+    let c := run pinned true (init P C) sched in
+    outs (sh c) = [Raised DisconnectedError] /\ buf (sh c) = [item_a] /\
+    last (trace pinned true (init P C) sched) [] = [LWake CE; LConnRead false; LRaise DisconnectedError].
+Proof.
+  exists P_da, [Recv false], sched_da. vm_compute. repeat split.
+Qed.
+
 (* (7.1-g) both granularities: a receive() without timeout that is registered in the input
    wait when the connection ends for good stays there: the final disconnect has been fully
    processed, every producer is finished and no step of any task is enabled *)
@@ -273,6 +288,62 @@ Example no_hang_repaired_nontrivial :
   after_final c /\ pc c = RIW WNotified /\
   outs (sh (run repaired false c (repeat 0 12))) = [Raised DisconnectedError; Raised DisconnectedError].
 Proof. vm_compute. repeat split. Qed.
+
+
+(* ---- fair schedules: after the final disconnect only the application task can move ---- *)
+Lemma cstep_frame c c' l : cstep c = Some (c', l) ->
+  prods c' = prods c /\ conn (sh c') = conn (sh c) /\ cev (sh c') = cev (sh c).
+Proof.
+  intro E. unfold cstep in E. destruct c as [s p scr pr]. destruct s as [b ie ce cn ns ar ou en]. simpl in *.
+  destruct p as [|[]| |[]| | |[]| | |]; simpl in E;
+    repeat match type of E with
+           | context [match ?x with _ => _ end] => destruct x eqn:?; simpl in E
+           end; try discriminate; inv_some; simpl; auto.
+Qed.
+
+Lemma after_final_cstep c c' l : after_final c -> cstep c = Some (c', l) -> after_final c'.
+Proof.
+  intros (Hd & Hcn & Hce) E. destruct (cstep_frame c c' l E) as (Hp & H1 & H2).
+  unfold after_final, prods_done in *. rewrite Hp, H1, H2. auto.
+Qed.
+
+Lemma repaired_others_idle P C c ch : mreach repaired (init P C) c -> after_final c -> ch <> 0 ->
+  micro repaired c ch = None.
+Proof.
+  intros Hr Ha Hch. destruct ch as [|[|i]]; [congruence| |].
+  - cbn [micro]. pose proof (repaired_never_stuck P C c Hr Ha) as Hn.
+    destruct (ctl_reach repaired P C c Hr) as (_ & Hb & _). destruct Ha as (_ & _ & Hce).
+    unfold tstep. destruct (cur_timeout c); [|reflexivity]. unfold blk_ok in Hb.
+    destruct (pc c) as [|[]| |[]| | |[]| | |]; try reflexivity; congruence.
+  - cbn [micro]. apply prods_done_pstep. apply Ha.
+Qed.
+
+Fixpoint turns (sched : list nat) : nat :=
+  match sched with [] => 0 | 0 :: r => S (turns r) | _ :: r => turns r end.
+
+Lemma fair_collapse P C sched : forall c, mreach repaired (init P C) c -> after_final c ->
+  run repaired false c sched = run repaired false c (repeat 0 (turns sched)).
+Proof.
+  induction sched as [|ch r IH]; intros c Hr Ha; [reflexivity|].
+  destruct ch as [|ch'].
+  - cbn [turns repeat run]. apply IH.
+    + apply step_reach. exact Hr.
+    + unfold step. cbn [micro]. destruct (cstep c) as [[c' l]|] eqn:E; [|exact Ha].
+      simpl. eapply after_final_cstep; eauto.
+  - cbn [turns run]. unfold step. rewrite (repaired_others_idle P C c (S ch') Hr Ha); [|discriminate].
+    simpl. apply IH; assumption.
+Qed.
+
+(* full strength, repaired source: under ANY schedule that gives the application task enough
+   turns (in particular every fair one) all pending and later calls complete *)
+Theorem no_hang_repaired_fair P C c sched : mreach repaired (init P C) c -> after_final c ->
+  6 * List.length (cscript c) <= turns sched ->
+  pc (run repaired false c sched) = CDone.
+Proof.
+  intros Hr Ha Hn. rewrite (fair_collapse P C sched c Hr Ha).
+  replace (turns sched) with (6 * List.length (cscript c) + (turns sched - 6 * List.length (cscript c))) by lia.
+  rewrite repeat_add, run_app. apply done_stays. apply (no_hang_repaired P C); auto.
+Qed.
 
 Lemma runs_are_reachable v atomic P C sched : mreach v (init P C) (run v atomic (init P C) sched).
 Proof. apply reach_run. Qed.
